@@ -125,12 +125,14 @@ Definition ser_flat (mods : list (path * ident)) (gates : list (path * ident * N
                          (filter (fun g => let '(p, _, _, _) := g in path_eqb p (fst m)) gates))) mods) ++
   sorted_concat (map (fun e => let '(a, b, l) := e in ser_gate_pos a ++ ser_gate_pos b ++ ser_link l) edges).
 
-(* the registry of the harness: symbols M0..M31 and T0..T7 resolve to a trivial module *)
+(* the registry of the harness: the types M0..M31, T0..T7 and m0..m7 are registered, each with its own software;
+   symbols are compared exactly (m3 is not M3) *)
 Definition registered (s : ident) : bool :=
   match s with
   | [77; d] => is_digit d
   | [77; d1; d2] => ((d1 =? 49) || (d1 =? 50)) && is_digit d2 || (d1 =? 51) && ((d2 =? 48) || (d2 =? 49))
   | [84; d] => (48 <=? d) && (d <=? 55)
+  | [109; d] => (48 <=? d) && (d <=? 55)
   | _ => false
   end.
 
